@@ -49,6 +49,10 @@ VList(s)   == [k |-> "list", v |-> s]
 VTup(s)    == [k |-> "tuple", v |-> s]
 VDict(s)   == [k |-> "dict", v |-> s]                \* s: sequence of <<key value, value>>
 VObj(c, s) == [k |-> "obj", cls |-> c, v |-> s]      \* instance of user class c with attributes s
+\* (GlomData: VBool(b) = [k |-> "bool", b |-> b])
+VHostile(n) == [k |-> "hostile", n |-> n]            \* an opaque object with a hostile __eq__ (equal to everything / raising):
+                                                     \* the law only ever speaks about its identity (n)
+VGen(s)    == [k |-> "gen", v |-> s]                 \* a one-shot iterator over s (pulling it after exhaustion is a fault)
 TypeOf(v)  == IF v.k = "obj" THEN v.cls ELSE v.k
 
 \* ---- spec grammar (what the harness turns into real glom specs) ----------------------
@@ -136,6 +140,9 @@ VEq(a, b) ==
   ELSE CASE a.k = "int" -> a.i = b.i
          [] a.k = "str" -> a.s = b.s
          [] a.k = "none" -> TRUE
+         [] a.k = "bool" -> a.b = b.b
+         [] a.k = "hostile" -> a.n = b.n
+         [] a.k = "gen" -> Len(a.v) = Len(b.v) /\ \A i \in 1..Len(a.v) : VEq(a.v[i], b.v[i])
          [] a.k \in {"list", "tuple"} -> Len(a.v) = Len(b.v) /\ \A i \in 1..Len(a.v) : VEq(a.v[i], b.v[i])
          [] a.k \in {"dict", "obj"} ->
               /\ (a.k = "obj" => a.cls = b.cls) /\ Len(a.v) = Len(b.v)
@@ -155,7 +162,9 @@ Merge(vis, cb) == IF cb = <<>> THEN vis ELSE Merge(SetKey(vis, cb[1][1], cb[1][2
 \* ---- Python-level primitives -----------------------------------------------------------
 ApplyF(f, t) ==
   CASE f = "id"   -> Ok(t)
-    [] f = "inc"  -> IF t.k = "int" THEN Ok(VInt(t.i + 1)) ELSE Exc("TypeError")
+    [] f = "inc"  -> IF t.k = "int" THEN Ok(VInt(t.i + 1))
+                     ELSE IF t.k = "bool" THEN Ok(VInt((IF t.b THEN 1 ELSE 0) + 1))      \* True + 1 == 2
+                     ELSE Exc("TypeError")
     [] f = "boom" -> Exc("ValueError")
     [] f = "boomA" -> Exc("BoomA")      \* two DISTINCT user exception classes that are both named "Boom":
     [] f = "boomB" -> Exc("BoomB")      \* the error leaving glom() is an instance of the class that was raised
@@ -178,7 +187,7 @@ RegOf(r) == RegDefs[CHOOSE i \in 1..Len(RegDefs) : RegDefs[i].r = r]
 \* handlers of the default registry for the types of the universe
 DefaultH(ty, op) ==
   CASE op = "get"     -> IF ty = "dict" THEN "getitem" ELSE IF ty \in {"list", "tuple"} THEN "seqitem" ELSE "getattr"
-    [] op = "iterate" -> IF ty \in {"list", "tuple", "dict"} THEN "iter" ELSE IF ty = "str" THEN "iterstr" ELSE "NONE"
+    [] op = "iterate" -> IF ty \in {"list", "tuple", "dict", "gen"} THEN "iter" ELSE IF ty = "str" THEN "iterstr" ELSE "NONE"
     [] op = "keys"    -> IF ty = "dict" THEN "dictkeys" ELSE IF ty = "A" THEN "objkeys" ELSE "NONE"
     [] OTHER          -> "NONE"
 \* the documented meaning of the registry for exact types: the most recent registration
@@ -255,10 +264,17 @@ WalkKids(steps, j, kids, regs, at, acc) ==
        ELSE WalkKids(steps, j, Tail(kids), regs, at, acc)
 
 Sub(at, k) == Append(at, k)
-AllScalar(sq) == \A i \in 1..Len(sq) : sq[i].k \in {"int", "str", "none"}
+AllScalar(sq) == \A i \in 1..Len(sq) : sq[i].k \in {"int", "str", "none", "bool"}
+\* Python equality of scalars: numbers compare by value whatever their type (1 == True)
+NumOf(v) == IF v.k = "int" THEN v.i ELSE IF v.b THEN 1 ELSE 0
+ScalarEq(a, b) == IF a.k \in {"int", "bool"} /\ b.k \in {"int", "bool"} THEN NumOf(a) = NumOf(b) ELSE VEq(a, b)
+\* `target in (eq,)` as far as the model decides it: "T" / "F" / "U" (outside the model)
+CheckEq(t, eq) == IF t.k = "hostile" \/ eq.k = "hostile" THEN "U"
+                  ELSE IF AllScalar(<<t, eq>>) THEN (IF ScalarEq(t, eq) THEN "T" ELSE "F")
+                  ELSE IF t.k # eq.k THEN "F" ELSE "U"
 RECURSIVE Dedupe(_, _)
 Dedupe(sq, acc) == IF sq = <<>> THEN acc
-                   ELSE Dedupe(Tail(sq), IF \E i \in 1..Len(acc) : VEq(acc[i], Head(sq)) THEN acc ELSE Append(acc, Head(sq)))
+                   ELSE Dedupe(Tail(sq), IF \E i \in 1..Len(acc) : ScalarEq(acc[i], Head(sq)) THEN acc ELSE Append(acc, Head(sq)))
 \* the node at a position of a spec (law side; the mechanism has the same table as NodeAt)
 RECURSIVE NodeAtL(_, _)
 NodeAtL(n, path) ==
@@ -324,8 +340,9 @@ Ev(n, at, t, env) ==
          IF env.mode # "AUTO" THEN Bad(Unmodelled(at), <<>>) ELSE Good(VDict(<< <<VStr("k"), t>> >>), <<>>)
     [] n.op = "check" ->
          LET r == Ev(SOpcall(n.f), Sub(at, 1), t, [env EXCEPT !.acc = <<>>]) IN
-         IF ~r.ok THEN r
-         ELSE IF VEq(t, n.eq) /\ r.v = VInt(1) THEN Good(t, r.obs)
+         IF CheckEq(t, n.eq) = "U" THEN Bad(Unmodelled(at), <<>>)
+         ELSE IF ~r.ok THEN r
+         ELSE IF CheckEq(t, n.eq) = "T" /\ r.v = VInt(1) THEN Good(t, r.obs)
          ELSE Bad(Err("CheckError", TRUE, at, <<>>), r.obs)
     [] n.op = "tplus" -> IF t.k = "list" THEN Good(VList(t.v \o n.v.v), <<>>) ELSE Bad(PAE(at), <<>>)
     [] n.op = "refdef" ->
@@ -604,8 +621,9 @@ MInvoke(P, G, f, n) ==
     [] OTHER -> X(Raise(P, P.e), G)
 
 MCheck(P, G, f, n) ==      \* errs is a local list of this evaluation
-  CASE f.ph = 0 -> X(Child(P, [f EXCEPT !.ph = 1], SOpcall(n.f), 1, f.t, f.vis, <<>>), G)
-    [] P.ctl = "ret" -> X(IF VEq(f.t, n.eq) /\ P.v = VInt(1) THEN Ret(P, f.t) ELSE Raise(P, Err("CheckError", TRUE, f.at, <<>>)), G)
+  CASE f.ph = 0 -> IF CheckEq(f.t, n.eq) = "U" THEN X(Raise(P, Unmodelled(f.at)), G)
+                   ELSE X(Child(P, [f EXCEPT !.ph = 1], SOpcall(n.f), 1, f.t, f.vis, <<>>), G)
+    [] P.ctl = "ret" -> X(IF CheckEq(f.t, n.eq) = "T" /\ P.v = VInt(1) THEN Ret(P, f.t) ELSE Raise(P, Err("CheckError", TRUE, f.at, <<>>)), G)
     [] OTHER -> X(Raise(P, P.e), G)
 
 MScopeLit(P, G, f, n) ==
